@@ -103,6 +103,9 @@ func genJoe(rng *rand.Rand, g jGen) *jScenario {
 		}
 		if g.Latency && rng.IntN(3) == 0 {
 			s.SendLatency = int64(1 + rng.IntN(25))
+			if rng.IntN(12) == 0 {
+				s.SendLatency = int64(2 * time.Second) // a stalled client: longer than any timeout a provider might use
+			}
 		}
 		if g.Cancels && rng.IntN(3) == 0 {
 			s.CancelAt = int64(rng.IntN(700))
@@ -177,6 +180,12 @@ func genJoe(rng *rand.Rand, g jGen) *jScenario {
 		sc.Shutdowns = append(sc.Shutdowns, jShutdown{At: int64(rng.IntN(700)), Ctx: "bg"})
 		if g.ShutdownPairs && rng.IntN(2) == 0 {
 			sc.Shutdowns = append(sc.Shutdowns, jShutdown{At: sc.Shutdowns[0].At, Ctx: "bg"}, jShutdown{At: sc.Shutdowns[0].At, Ctx: "cancelled"})
+		}
+	}
+	if g.Latency && sc.Replayer != "none" && rng.IntN(4) == 0 {
+		sc.PutLatency = int64(1 + rng.IntN(40))
+		if rng.IntN(2) == 0 {
+			sc.ReplayLatency = int64(1 + rng.IntN(60))
 		}
 	}
 	if g.ReplayerFaults && sc.Replayer != "none" && rng.IntN(2) == 0 {
@@ -366,6 +375,14 @@ func TestC03(t *testing.T) {
 		out := oracleDelivery(sc, tr, false)
 		out = append(out, oracleFlush(tr)...)
 		out = append(out, oraclePublishReturns(tr)...)
+		// "never to any other subscriber": a subscriber whose Subscribe has returned is not registered any more
+		for _, f := range oracleSubscriberSafety(sc, tr) {
+			for _, tg := range f.Tags {
+				if tg == "call_after_subscribe_returned" || tg == "concurrent_calls_on_client" {
+					out = append(out, f)
+				}
+			}
+		}
 		return out
 	})
 }
@@ -564,7 +581,7 @@ func genC07(rng *rand.Rand, g jGen) *jScenario {
 func TestC07(t *testing.T) {
 	r := fw.Start(t, "C07")
 	defer r.Finish()
-	g := jGen{ClientFaults: true, Cancels: true, Replayers: []string{"rec", "none", "finite:3:auto"}, MaxSubs: 4, MaxPubs: 3, MaxMsgs: 4, Latency: true, LateSubscribe: true}
+	g := jGen{ClientFaults: true, Cancels: true, ReplayerFaults: true, Replayers: []string{"rec", "rec", "none", "finite:3:auto"}, MaxSubs: 4, MaxPubs: 3, MaxMsgs: 4, Latency: true, LateSubscribe: true}
 	sigs := map[uint64]struct{}{}
 	n := r.N(4000, 60000)
 	for i := 0; i < n; i++ {
@@ -592,7 +609,7 @@ func TestC07(t *testing.T) {
 func TestC17(t *testing.T) {
 	r := fw.Start(t, "C17")
 	defer r.Finish()
-	g := jGen{ClientFaults: true, ReplayerFaults: true, PanicFaults: true, Resume: true, BadIDs: true, Replayers: []string{"rec", "rec", "finite:4:manual", "finite:3:auto", "valid:manual", "valid:auto"}, MaxSubs: 5, MaxPubs: 3, MaxMsgs: 5, Latency: true, LateSubscribe: true}
+	g := jGen{ClientFaults: true, Cancels: true, ReplayerFaults: true, PanicFaults: true, Resume: true, BadIDs: true, Replayers: []string{"rec", "rec", "finite:4:manual", "finite:3:auto", "valid:manual", "valid:auto"}, MaxSubs: 5, MaxPubs: 3, MaxMsgs: 5, Latency: true, LateSubscribe: true}
 	jLoop(t, r, "S", r.N(4000, 60000), g, 3, 4, []map[string]int64{{"loop.errsent": 60}, {"loop.sent": 35, "loop.put": 20}, {"loop.replayed": 100}}, func(sc *jScenario, tr *jTrace) []jv {
 		out := oracleDelivery(sc, tr, false)
 		out = append(out, oraclePublishReturns(tr)...)
